@@ -10,11 +10,14 @@ Definition spec_valid (c : config) (a : N) (h : Z) : bool :=
   let en := enabled_drivers c h in
   existsb (fun p => is_nil (c_val c (fst p) a)) en || Nat.eqb (length en) 0.
 
-(** the error of an invalid address: the one of the last enabled driver in
-    registration (id) order — one fixed choice among the drivers' errors *)
+(** the error of an invalid address: the one of the lowest-id enabled driver
+    (first in registration order) — one fixed choice among the drivers' errors.
+    For the built-in drivers this is the btc driver's base58 error, i.e. what
+    CheckAddress returned when btc was the only address format; the pre-fork
+    exceptions of dapp.CheckAddress were written against that error. *)
 Definition spec_under (c : config) (a : N) (h : Z) : err :=
   if spec_valid c a h then ENil
-  else last (map (fun p => c_val c (fst p) a) (enabled_drivers c h)) ENil.
+  else hd ENil (map (fun p => c_val c (fst p) a) (enabled_drivers c h)).
 
 Definition spec_answer (c : config) (o : op) : ans :=
   match o with
@@ -117,3 +120,13 @@ Definition vguard_b (c : config) (ops : list op) : bool := vguard_from c [] ops.
 (** default configuration: every address driver enabled from height 0 *)
 Definition all_zero (c : config) : bool := forallb (fun p => snd p =? 0) (c_drv c).
 
+
+(** the guard in the shape of the property text: the heights of the pubkey
+    conversions stay on one side of the formatting fork *)
+Definition fmt_side_b (c : config) (side : bool) (ops : list op) : bool :=
+  forallb (fun o => match o with
+                    | OPub _ _ h => Bool.eqb (is_fork h (c_ffmt c)) side
+                    | _ => true
+                    end) ops.
+
+Definition all_unambiguous (c : config) (ops : list op) : bool := forallb (op_unambiguous c) ops.
